@@ -48,6 +48,9 @@ pub struct OutPkt {
     pub src_ip: Option<IpAddr>,
     pub dst: SocketAddr,
     pub data: Vec<u8>,
+    /// The IPv4 multicast interface address selected on the (one, shared) IPv4 socket when this
+    /// datagram was sent (IP_MULTICAST_IF as last set); `None` if none was selected so far.
+    pub mcast_if_v4: Option<std::net::Ipv4Addr>,
 }
 
 #[derive(Clone, Debug, PartialEq, Eq)]
@@ -78,6 +81,7 @@ struct Inner {
     park: ParkInfo,
     ingress: VecDeque<InPkt>,
     egress: Vec<OutPkt>,
+    mcast_if_v4: Option<std::net::Ipv4Addr>,
     intfs: Vec<SimIntf>,
     rng: VecDeque<u64>,
     rng_default: u64,
@@ -172,6 +176,7 @@ impl SimCtl {
                 park: ParkInfo::default(),
                 ingress: VecDeque::new(),
                 egress: Vec::new(),
+                mcast_if_v4: None,
                 intfs,
                 rng: VecDeque::new(),
                 rng_default: 0,
@@ -341,7 +346,11 @@ impl SimCtl {
     pub(crate) fn log_egress(&self, mut p: OutPkt) {
         let mut g = self.inner.lock().unwrap();
         p.t = g.now;
+        p.mcast_if_v4 = g.mcast_if_v4;
         g.egress.push(p);
+    }
+    pub(crate) fn set_mcast_if_v4(&self, a: std::net::Ipv4Addr) {
+        self.inner.lock().unwrap().mcast_if_v4 = Some(a);
     }
     pub(crate) fn intfs(&self) -> Vec<SimIntf> {
         self.inner.lock().unwrap().intfs.clone()
